@@ -30,13 +30,14 @@ class C19(PropBase):
     lean_modules = ["SqModel.Props.C19", "SqModel.Props.C19Table", "SqModel.Props.C19Obs", "SqModel.Proofs.Dispatch", "SqModel.Proofs.Bridge", "SqModel.Proofs.BridgePlane"]
     extractors = ["dispatch", "trans"]
     rule = ("histories of 30-200 generated frames of every format (and the first 3000 lines of three recorded files) run through "
-            "the real reader under pairs of option sets differing only in -i, -o, -c, -u, -M, -D: dumps must be identical; pairs "
+            "the real reader under pairs of option sets differing only in -i, -o, -c, -u, -M, -D, -l: dumps must be identical; short histories with back-to-back repeated frames after a silent aircraft under the logging options; pairs "
             "differing in -O: identical except dist; histories of valid DF4/5/11/17 frames with and without -U (x -R): the nine "
             "listed parameters identical. Non-trivial = history in which at least one row has a position or a velocity; distinct by history.")
-    assumptions = ["-l (env_logger initialisation is process-global) is exercised through the CLI in the thorough tier only"]
+    assumptions = ["-l: the harness installs the logger once per process before the reader starts, as main() does"]
 
     VARIANTS = [dict(groups="Q"), dict(groups="", order="c"), dict(groups="aAews", order="NWd"), dict(count=True),
-                dict(update=0), dict(update=3600), dict(logm="4,17"), dict(dlog=1), dict(show=1, groups="e", update=-1)]
+                dict(update=0), dict(update=3600), dict(logm="4,17"), dict(dlog=1), dict(show=1, groups="e", update=-1), dict(elog=1),
+                dict(dlog=1, elog=1, logm="0,4,5,11,16,17,18,20,21", count=True)]
 
     def explore(self, rep, run, rng, tier, driver_ok):
         nh = 12 if tier == "quick" else 200
@@ -77,6 +78,32 @@ class C19(PropBase):
                     return
             if any(" lat=" in l and " lat=0.0000000000" not in l for l in b):
                 rep.nontriv(("opts", hi))
+        # the logging options with repeated frames and a silent aircraft: what is logged (or not logged twice) must not decide
+        # which frames are applied or when the expiry sweep runs
+        for hi in range(6 if tier == "quick" else 60):
+            stale = 0x4E0000 + hi
+            addrs = [0x4E1000 + hi, 0x4E2000 + hi]
+            distinct = [gen.rand_frame(rng, rng.choice(["df11", "df4", "df5", "tc4", "tc11", "tc19.1", "df20"]), rng.choice(addrs)) for _ in range(rng.randrange(5, 10))]
+            lines = []
+            for f in distinct:
+                lines += [f] * rng.choice([1, 2, 2, 3])          # back-to-back repeats, as merged feeds deliver them
+            base = dict(use_update=bool(hi % 2), delete_after=5)
+            ops = []
+            variants = [dict(), dict(dlog=1), dict(logm="4,5,11,17,20"), dict(elog=1), dict(dlog=1, elog=1, count=True)]
+            for vi, v in enumerate(variants):
+                ops += ["reset", gen.cfg_op(**{**base, **v})] + gen.seg([F.df11(5, stale, 0)]) + ["adv 5500", f"case w{vi}"] + gen.seg(lines) + ["dump"]
+            impl, _, model = run.execute(ops, model=driver_ok)
+            rep.evaluations += len(lines) * len(variants); rep.traces += len(variants)
+            self.corr(rep, impl, model, {"repeat-history": hi})
+            ci = core.split_cases(impl)
+            b = [l for l in ci.get("w0", []) if l.startswith(("row", "enddump"))]
+            for vi, v in enumerate(variants[1:], 1):
+                x = [l for l in ci.get(f"w{vi}", []) if l.startswith(("row", "enddump"))]
+                if x != b:
+                    self.fail(rep, f"logging options {v} alter the table of a history with repeated frames ({len(b) - 1} rows without them, {len(x) - 1} with them)",
+                              {"ops": ops, "variant": v})
+                    return
+            rep.nontriv(("repeat", hi))
         # -U neutrality
         for hi in range(40 if tier == "quick" else 800):
             addrs = rng.sample(range(1, 1 << 24), 2)
